@@ -215,3 +215,26 @@ def kwarg(call: ast.Call, name: str) -> Optional[ast.AST]:
 
 def const_value(t: ast.AST):
     return t.value if isinstance(t, ast.Constant) else None
+
+
+def with_helpers(ctx, fv, depth: int = 2) -> List[FV]:
+    """The function view plus the views of the *new* helper functions it calls (not in the frozen anchor list)."""
+    out = [fv]
+    seen = {fv.f.qualname}
+    frontier = [fv]
+    for _ in range(depth):
+        nxt = []
+        for v in frontier:
+            for cs in v.calls():
+                hv = v._helper_view(cs.call)
+                if hv is None:
+                    continue
+                g, conc = hv
+                if g.qualname in seen:
+                    continue
+                seen.add(g.qualname)
+                gv = ctx.fv(g, conc)
+                out.append(gv)
+                nxt.append(gv)
+        frontier = nxt
+    return out
